@@ -889,7 +889,7 @@ def nud__schema_node_kind_test(self: XPathFunction) -> XPathFunction:
 XPath2Parser.unregister('attribute')
 XPath2Parser.register(
     'attribute', lbp=90, rbp=90, label=('kind test', 'axis'),
-    pattern=r'\battribute(?=\s*\:\:|\s*\(\:.*\:\)\s*\:\:|\s*\(|\s*\(\:.*\:\)\()'
+    pattern=r'\battribute(?=\s*\:\:|\s*\(\:(?s:.*)\:\)\s*\:\:|\s*\((?!\:)|\s*\(\:(?s:.*)\:\)\s*\((?!\:))'
 )
 
 
